@@ -20,6 +20,9 @@ def build_pool():
     from geometer.transformation import rotation, translation, TransformationCollection
 
     pool = {}
+    pool["pf2"] = g.Point([2.0, 4.0, 2.0])  # float dtype, last coordinate != 1
+    pool["pcf2"] = g.PointCollection([[1.0, 2.0, 4.0], [3.0, 0.0, -2.0]])
+    pool["pf3"] = g.Point([2.0, 4.0, 6.0, 2.0])
     pool["p2"] = g.Point(1, 2)
     pool["q2"] = g.Point(-3, 0.5)
     pool["r2"] = g.Point(2, -1)
@@ -41,6 +44,8 @@ def build_pool():
     pool["circle"] = g.Circle(g.Point(1, 1), 2)
     pool["sphere"] = g.Sphere(g.Point(0, 0, 1), 2)
     pool["quadcol"] = g.QuadricCollection([np.eye(3), np.diag([1, 2, -1])])
+    pool["segf"] = Segment(g.Point([0.0, 0.0, 2.0]), g.Point([4.0, 2.0, 2.0]))
+    pool["polyf"] = Polygon(g.Point([0.0, 0.0, 2.0]), g.Point([4.0, 0.0, 2.0]), g.Point([4.0, 4.0, 2.0]), g.Point([0.0, 4.0, -1.0]) if False else g.Point([0.0, 8.0, 2.0]))
     pool["seg2"] = Segment(g.Point(0, 0), g.Point(2, 1))
     pool["seg3"] = Segment(g.Point(0, 0, 0), g.Point(2, 1, 1))
     pool["segc"] = SegmentCollection([[[0, 0, 1], [1, 1, 1]], [[1, 0, 1], [0, 1, 1]]])
